@@ -22,6 +22,7 @@ pub mod c12_walrec;
 pub mod c14_guard;
 pub mod c01_merge;
 pub mod c05_patch;
+pub mod c04_diff;
 
 #[cfg(not(kani))]
 include!(concat!(env!("OUT_DIR"), "/registry.rs"));
